@@ -129,11 +129,11 @@ def finish_pipeline(d, conv, nts, strands_file=True):
     except Exception as e:
         return {"outcome": "failed", "error": "%s: %s" % (type(e).__name__, e)}
 
-def pipeline(files, base, args=(), includes=None, seed=0, struct_orient=False):
+def pipeline(files, base, args=(), includes=None, seed=0, struct_orient=False, fixed=None):
     """compile -> designer arrays -> fill -> process_results -> .mfe -> finish, all in one kept directory.
     Returns dict with dir, ctr0, pil, arrays, nts, mfe, seqs, strands (or outcome != ok and stage)."""
     import random
-    r = compile_files(files, base, args=args, includes=includes, keep=True)
+    r = compile_files(files, base, args=args, includes=includes, keep=True, fixed=fixed)
     d = r["dir"]
     out = {"dir": d, "ctr0": r["ctr0"], "stage": "compile", "outcome": r["outcome"], "error": r.get("error")}
     if r["outcome"] != "ok":
